@@ -25,7 +25,10 @@ import (
 	"github.com/pingcap/kvproto/pkg/tikvpb"
 	"github.com/tikv/client-go/v2/config"
 	"github.com/tikv/client-go/v2/internal/client/mockserver"
+	"github.com/pingcap/failpoint"
 	"github.com/tikv/client-go/v2/tikvrpc"
+	"github.com/tikv/client-go/v2/util"
+	"github.com/tikv/client-go/v2/util/async"
 )
 
 type bM = map[string]interface{}
@@ -34,18 +37,40 @@ func bScenario(log *bufio.Writer, lmu *sync.Mutex, seed int64, scn int) {
 	rnd := rand.New(rand.NewSource(seed*32452843 + int64(scn)))
 	server, port := mockserver.StartMockTikvService()
 	if port <= 0 {
-		panic("mock server did not start")
+		panic("verif-harness: mock server did not start")
 	}
 	defer server.Stop()
+	// a "stall" scenario: the server stops reading for a while, so the client's send loop blocks in the stream and the
+	// submission queue fills up behind it; callers with short time-outs must still come back in time
+	stall := scn%20 == 7
 	pDrop := []float64{0, 0, 0.02, 0.1}[rnd.Intn(4)]
 	pSkip := []float64{0, 0.02, 0.1}[rnd.Intn(3)]
-	maxDelay := []int{0, 0, 2, 10}[rnd.Intn(4)]
+	maxDelay := []int{0, 0, 2, 10, 80}[rnd.Intn(5)] // 80 ms: responses arrive after the shortest time-outs have fired
 	var smu sync.Mutex
 	srnd := rand.New(rand.NewSource(rnd.Int63()))
 	var drops, skips int64
+	var healthy atomic.Bool
+	echoAll := func(req *tikvpb.BatchCommandsRequest) *tikvpb.BatchCommandsResponse {
+		resp := &tikvpb.BatchCommandsResponse{}
+		for i, r := range req.Requests {
+			var out *tikvpb.BatchCommandsResponse_Response
+			if g := r.GetGet(); g != nil {
+				out = &tikvpb.BatchCommandsResponse_Response{Cmd: &tikvpb.BatchCommandsResponse_Response_Get{Get: &kvrpcpb.GetResponse{Value: append([]byte("echo:"), g.Key...)}}}
+			} else {
+				out = &tikvpb.BatchCommandsResponse_Response{Cmd: &tikvpb.BatchCommandsResponse_Response_Empty{Empty: &tikvpb.BatchCommandsEmptyResponse{}}}
+			}
+			resp.Responses = append(resp.Responses, out)
+			resp.RequestIds = append(resp.RequestIds, req.RequestIds[i])
+		}
+		return resp
+	}
 	handler := func(req *tikvpb.BatchCommandsRequest) (*tikvpb.BatchCommandsResponse, error) {
 		smu.Lock()
 		defer smu.Unlock()
+
+		if healthy.Load() {
+			return echoAll(req), nil
+		}
 		if srnd.Float64() < pDrop {
 			atomic.AddInt64(&drops, 1)
 			return nil, errors.New("verif: stream dropped by the server")
@@ -76,9 +101,26 @@ func bScenario(log *bufio.Writer, lmu *sync.Mutex, seed int64, scn int) {
 	restore := config.UpdateGlobal(func(conf *config.Config) {
 		conf.TiKVClient.MaxBatchSize = uint([]int{128, 8, 2}[rnd.Intn(3)])
 		conf.TiKVClient.GrpcConnectionCount = uint(1 + rnd.Intn(2))
+		conf.TiKVClient.MaxConcurrencyRequestLimit = []int64{config.DefMaxConcurrencyRequestLimit, 4, 16}[rnd.Intn(3)]
+		if stall {
+			conf.TiKVClient.GrpcConnectionCount = 1
+		}
 	})
 	defer restore()
 	rpc := NewRPCClient()
+	if stall {
+		// the repository's own failpoint: every send of the batch send loop takes this long, so the loop stops taking
+		// entries from the submission queue and the queue fills up behind it
+		healthy.Store(true) // the warm-up call is answered whatever the scenario's faults are
+		if _, err := rpc.SendRequest(context.Background(), server.Addr(), tikvrpc.NewRequest(tikvrpc.CmdGet, &kvrpcpb.GetRequest{Key: []byte("warmup"), Version: 1}), 5*time.Second); err != nil {
+			panic("verif-harness: warm-up call failed: " + err.Error())
+		}
+		healthy.Store(false)
+		if err := failpoint.Enable("tikvclient/mockBatchClientSendDelay", "return(2600)"); err != nil {
+			panic("verif-harness: " + err.Error())
+		}
+		defer failpoint.Disable("tikvclient/mockBatchClientSendDelay")
+	}
 	closeAt := -1
 	if rnd.Intn(4) == 0 {
 		closeAt = 5 + rnd.Intn(40) // the client is closed after this many milliseconds, with calls in flight
@@ -90,6 +132,10 @@ func bScenario(log *bufio.Writer, lmu *sync.Mutex, seed int64, scn int) {
 	lmu.Unlock()
 	addr := server.Addr()
 	workers := 2 + rnd.Intn(10)
+	if stall {
+		workers = 400
+		closeAt = -1
+	}
 	var wg sync.WaitGroup
 	var closed atomic.Bool
 	if closeAt >= 0 {
@@ -110,6 +156,12 @@ func bScenario(log *bufio.Writer, lmu *sync.Mutex, seed int64, scn int) {
 			for i := 0; i < 12; i++ {
 				key := fmt.Sprintf("s%d-g%d-i%d", scn, g, i)
 				timeout := []int{30, 100, 400}[r.Intn(3)]
+				if stall {
+					if i > 0 {
+						break
+					}
+					timeout = 200
+				}
 				cancelAfter := -1
 				if r.Intn(5) == 0 {
 					cancelAfter = r.Intn(timeout)
@@ -127,12 +179,45 @@ func bScenario(log *bufio.Writer, lmu *sync.Mutex, seed int64, scn int) {
 				}
 				wasClosed := closed.Load()
 				start := time.Now()
-				resp, err := rpc.SendRequest(ctx, addr, req, time.Duration(timeout)*time.Millisecond)
+				var resp *tikvrpc.Response
+				var err error
+				useAsync := !stall && r.Intn(5) == 0
+				calls := 1
+				if useAsync {
+					// the asynchronous form: the callback must be invoked exactly once; its only deadline is the context's
+					calls = 0
+					actx, acancel := context.WithTimeout(ctx, time.Duration(timeout)*time.Millisecond)
+					if pSkip == 0 && r.Intn(2) == 0 {
+						// no deadline at all: the server answers every request it reads, so the call ends with its answer or
+						// with the failure of the stream it was pending on - it cannot stay pending
+						acancel()
+						actx, acancel = context.WithCancel(context.Background())
+						cancelAfter = -1
+						timeout = 2500 // no deadline of its own: the harness waits this long (plus the slack) for the callback
+					}
+					rl := async.NewRunLoop()
+					cb := async.NewCallback(rl, func(r *tikvrpc.Response, e error) { calls++; resp, err = r, e })
+					rpc.SendRequestAsync(actx, addr, req, cb)
+					wctx, wcancel := context.WithTimeout(context.Background(), time.Duration(timeout+2500)*time.Millisecond)
+					for calls == 0 {
+						if _, e := rl.Exec(wctx); e != nil {
+							break
+						}
+					}
+					wcancel()
+					acancel()
+				} else {
+					resp, err = rpc.SendRequest(ctx, addr, req, time.Duration(timeout)*time.Millisecond)
+				}
 				lat := time.Since(start)
 				cancel()
 				ev := bM{"ev": "call", "key": key, "timeout_ms": timeout, "cancel_ms": cancelAfter, "prio": int(req.Priority), "fwd": fwd != "",
-					"latency_ms": int(lat / time.Millisecond), "closed_before": wasClosed, "outcome": "err", "own": false, "err": ""}
+					"latency_ms": int(lat / time.Millisecond), "closed_before": wasClosed, "outcome": "err", "own": false, "err": "", "async": useAsync, "returns": calls, "healthy": false}
+				if calls == 0 {
+					ev["outcome"] = "never"
+				}
 				switch {
+				case calls == 0:
 				case err != nil:
 					ev["err"] = fmt.Sprintf("%.80s", err.Error())
 				case resp == nil || resp.Resp == nil:
@@ -156,6 +241,36 @@ func bScenario(log *bufio.Writer, lmu *sync.Mutex, seed int64, scn int) {
 	}
 	wg.Wait()
 	if closeAt < 0 {
+		// a healthy phase: the server answers everything at once; a call with a generous time-out must get its answer
+		// (a slot or an entry leaked during the faulty phase would starve it)
+		if stall {
+			failpoint.Disable("tikvclient/mockBatchClientSendDelay")
+			time.Sleep(2700 * time.Millisecond) // the send that was being delayed ends
+		}
+		healthy.Store(true)
+		time.Sleep(30 * time.Millisecond)
+		for i := 0; i < 12; i++ {
+			key := fmt.Sprintf("s%d-healthy-i%d", scn, i)
+			req := tikvrpc.NewRequest(tikvrpc.CmdGet, &kvrpcpb.GetRequest{Key: []byte(key), Version: 1})
+			start := time.Now()
+			resp, err := rpc.SendRequest(context.Background(), addr, req, 1500*time.Millisecond)
+			ev := bM{"ev": "call", "key": key, "timeout_ms": 1500, "cancel_ms": -1, "prio": 0, "fwd": false, "latency_ms": int(time.Since(start) / time.Millisecond),
+				"closed_before": false, "outcome": "err", "own": false, "err": "", "async": false, "returns": 1, "healthy": pSkip == 0} // a request the server never answers keeps its slot for good: not a listed fault
+			if err != nil {
+				ev["err"] = fmt.Sprintf("%.80s", err.Error())
+			} else if resp != nil && resp.Resp != nil {
+				ev["outcome"] = "resp"
+				if gr, ok := resp.Resp.(*kvrpcpb.GetResponse); ok {
+					ev["own"] = string(gr.Value) == "echo:"+key
+					ev["value"] = fmt.Sprintf("%.60s", string(gr.Value))
+				}
+			}
+			line, _ := json.Marshal(ev)
+			lmu.Lock()
+			log.Write(line)
+			log.WriteByte('\n')
+			lmu.Unlock()
+		}
 		rpc.Close()
 	}
 	lmu.Lock()
@@ -175,6 +290,7 @@ func TestVerifBatchRPC(t *testing.T) {
 	if n == 0 {
 		n = 20
 	}
+	util.EnableFailpoints()
 	f, err := os.Create(out)
 	if err != nil {
 		t.Fatal(err)
